@@ -67,6 +67,7 @@ package httpgrpc
 //@   assert_call[C01,C07] writeSizePreface : size_prefix_first_negative_for_the_final_frame: arg0 == w && !called("io.Writer.Write") && len(lastresult("encoding.Codec.Marshal", 0)) <= 2147483647 && (end ==> arg1 == 0 - len(lastresult("encoding.Codec.Marshal", 0))) && (!end ==> arg1 == len(lastresult("encoding.Codec.Marshal", 0)))
 //@   assert_call[C01] io.Writer.Write : then_exactly_the_marshalled_bytes: arg0 == w && arg1 == lastresult("encoding.Codec.Marshal", 0) && calls(writeSizePreface) == 1 && lastresult(writeSizePreface) == nil
 //@   ensures[C01] one_payload_write_at_most: calls("io.Writer.Write") <= 1
+//@   ensures[C01,C02] a_failed_prefix_or_payload_write_is_reported: (called(writeSizePreface) && lastresult(writeSizePreface) != nil ==> result == lastresult(writeSizePreface) && !called("io.Writer.Write")) && (called("io.Writer.Write") ==> result == lastresult("io.Writer.Write", 1))
 //@   ensures[C01,C07] success_wrote_prefix_and_payload: result == nil ==> calls(writeSizePreface) == 1 && calls("io.Writer.Write") == 1
 //@   modifies external
 //
@@ -172,6 +173,7 @@ package httpgrpc
 //
 //@ func getPeer
 //@   ensures[C13] result != nil && fresh(result)
+//@   ensures[C13] address_is_the_host_with_the_schemes_default_port: typeis(result.Addr, "strAddr") && (str_contains(baseUrl.Host, ":") ==> unbox(result.Addr, "strAddr") == baseUrl.Host) && (!str_contains(baseUrl.Host, ":") && baseUrl.Scheme == "https" ==> unbox(result.Addr, "strAddr") == baseUrl.Host + ":443") && (!str_contains(baseUrl.Host, ":") && baseUrl.Scheme == "http" ==> unbox(result.Addr, "strAddr") == baseUrl.Host + ":80") && (!str_contains(baseUrl.Host, ":") && baseUrl.Scheme != "http" && baseUrl.Scheme != "https" ==> unbox(result.Addr, "strAddr") == baseUrl.Host)
 //@   ensures[C13] tls_reported: (tls != nil) <==> (result.AuthInfo != nil)
 //@   ensures[C13] tls_state: tls != nil ==> typeis(result.AuthInfo, "credentials.TLSInfo") && unbox(result.AuthInfo, "credentials.TLSInfo").State == *tls
 //@   modifies nothing
@@ -200,6 +202,10 @@ package httpgrpc
 //@ define xstatus(reply) = hdr1(reply.Header, "X-GRPC-Status")
 //@ define xcode(reply) = split_head(xstatus(reply), ":")
 //@ func statFromResponse
+//@   assert_call[C02] proto.Unmarshal : only_successfully_decoded_detail_headers_are_parsed: arg0 == lastresult("(*base64.Encoding).DecodeString", 0) && lastresult("(*base64.Encoding).DecodeString", 1) == nil
+//@   assert_call[C02] (*base64.Encoding).DecodeString : each_detail_header_with_the_raw_url_alphabet: arg0 == base64.RawURLEncoding && arg1 == detailHeaders[rangeindex]
+//@   assert_call[C02] status.FromProto : carries_code_message_and_all_decoded_details: arg0.Details == details && len(details) > 0 && arg0.Message == msg
+//@   ensures[C02] decoded_details_are_never_dropped: result != nil && !called("status.FromProto") ==> len(details) == 0
 //@   ensures[C14,C02] header_code_wins_over_http_status: old(xcode(reply)) != "" && parse_ok(old(xcode(reply)), 32) ==> ((result == nil) <==> (parse_val(old(xcode(reply))) == 0)) && (result != nil ==> status_code(result) == wrap_u32(parse_val(old(xcode(reply)))))
 //@   ensures[C14] without_usable_header_the_http_status_decides: (old(xcode(reply)) == "" || !parse_ok(old(xcode(reply)), 32)) ==> ((result == nil) <==> (lastresult(codeFromHttpStatus) == 0)) && (result != nil ==> status_code(result) == lastresult(codeFromHttpStatus))
 //@   assert_call[C14] codeFromHttpStatus : of_the_replys_status_code: arg0 == reply.StatusCode
@@ -226,12 +232,25 @@ package httpgrpc
 //@   alloc_bound[C07] maxMessageSize
 //@   blocking_escape[C05,C04] cs.ctx
 //@   loop loop#1 invariant[C05] rErr == nil && !rMuHeld && !held(&cs.rMu) && wg_count(&cs.ready) == 0 && !closed(cs.rCh)
+//@   loop loop#1 invariant[C03,C02] the_trailer_frame_ends_the_loop: !called(readProtoMessage) && !called("(*internal.CallOptions).SetTrailers")
 //@   ensures[C05] ready_released_exactly_once: wg_count(&cs.ready) == 0
 //@   ensures[C05] stream_marked_done_and_closed: cs.done && closed(cs.rCh) && !held(&cs.rMu)
 //@   ensures[C07,C02] truncated_response_is_never_a_clean_end: cs.rErr != io.EOF
 //@   ensures[C04] never_a_bare_context_error: cs.rErr != context.Canceled && cs.rErr != context.DeadlineExceeded
 //@   ensures[C02,C07] success_means_trailer_or_status_seen: cs.rErr == nil && !called("readProtoMessage") ==> cs.tr.Code != 0
 //@   assert_call[C13] getPeer : peer_from_reply_tls: arg0 == cs.baseUrl && arg1 == lastresult("http.RoundTripper.RoundTrip", 0).TLS
+//@   ensures[C13] peer_options_are_filled_once_the_reply_arrived: lastresult("http.RoundTripper.RoundTrip", 1) == nil && len(cs.copts.Peer) > 0 ==> calls("(*internal.CallOptions).SetPeer") == 1
+//@   ensures[C05] the_request_pipe_is_always_released: calls("(*io.PipeReader).CloseWithError") == 1
+//@   assert_call[C05] (*io.PipeReader).CloseWithError : with_the_final_error_after_it_was_published: arg0 == readPipe && cs.done
+//@   ensures[C05] the_reply_body_is_drained_and_closed: lastresult("http.RoundTripper.RoundTrip", 1) == nil ==> calls("io.ReadCloser.Close") == 1 && called("ioutil.ReadAll")
+//@   assert_call[C05] io.ReadCloser.Close : the_reply_body: arg0 == reply_body
+//@   assert_call[C03] (*internal.CallOptions).SetHeaders : the_stored_reply_headers_to_the_header_options: arg0 == cs.copts && arg1 == cs.hd && cs.hd == lastresult(asMetadata, 0) && lastresult(asMetadata, 1) == nil && cs.hdErr == nil
+//@   assert_call[C03] statFromResponse : header_options_were_filled_before_any_message: len(lastresult(asMetadata, 0)) > 0 && len(cs.copts.Headers) > 0 ==> calls("(*internal.CallOptions).SetHeaders") == 1
+//@   ensures[C03] a_header_decoding_error_is_what_Header_reports: called(asMetadata) ==> cs.hdErr == lastresult(asMetadata, 1)
+//@   ensures[C02] a_non_ok_reply_status_leaves_a_non_ok_trailer: called("(*status.Status).Proto") ==> cs.tr.Code != 0
+//@   assert_call[C02] ioutil.ReadAll : a_non_ok_reply_status_was_copied_into_the_trailer_whole: called("(*status.Status).Proto") ==> cs.tr.Code == lastresult("(*status.Status).Proto").Code && cs.tr.Message == lastresult("(*status.Status).Proto").Message && cs.tr.Details == lastresult("(*status.Status).Proto").Details
+//@   assert_call[C03] ioutil.ReadAll : received_trailers_went_to_the_trailer_options_first: called(readProtoMessage) && len(cs.tr.Metadata) > 0 && len(cs.copts.Trailers) > 0 ==> calls("(*internal.CallOptions).SetTrailers") == 1
+//@   assert_call[C03] (*internal.CallOptions).SetTrailers : from_the_received_trailer: arg0 == cs.copts && arg1 == lastresult(metadataFromProto) && lastarg(metadataFromProto, 0) == cs.tr.Metadata
 //@   assert_call[C04] http.RoundTripper.RoundTrip : request_carries_stream_context: arg0 == transport
 //@   assert_call[C01,C07] send : delivers_exactly_the_frame_just_read: arg0 == cs.rCh && 0 <= sz && len(arg1) == sz && sz == be32(reply_body, rd_pos(reply_body) - sz - 4) && (forall j int :: 0 <= j && j < sz ==> arg1[j] == rd_at(reply_body, rd_pos(reply_body) - sz + j))
 //@   assert_call[C07,C01,C02] readProtoMessage : trailer_size_is_negated_prefix: arg0 == reply_body && arg1 == cs.codec && sz < 0 && (sz > -2147483648 ==> arg2 == 0 - sz) && (sz == -2147483648 ==> arg2 < 0)
@@ -290,6 +309,8 @@ package httpgrpc
 //@   assert_call[C11,C01] grpc.MethodDesc.Handler : decoder_is_the_request_body: isfunc(arg2, "handleMethod.return.dec") && *binding(arg2, 0, "*encoding.Codec") == lastresult(getUnaryCodec) && *binding(arg2, 1, "*[]byte") == lastresult("ioutil.ReadAll", 0)
 //@   assert_call[C13] peer.NewContext : peer_of_the_request: arg1 == lastresult(peerFromRequest) && arg0 == req_ctx(r)
 //@   ensures[C03] handler_headers_and_trailers_copied: called("grpc.MethodDesc.Handler") ==> calls(toHeaders) == 2
+//@   assert_call[C01,C11] (http.Header).Set : only_the_protocol_headers_with_their_values: arg1 == "Allow" || arg1 == "X-GRPC-Status" || (arg1 == "Content-Type" && arg2 == contentType) || (arg1 == "Content-Length" && arg2 == fmt_d(len(b)) && lastarg("(http.Header).Set", 1) == "Content-Type")
+//@   assert_call[C01,C11] http.ResponseWriter.Write : the_marshalled_response_after_type_and_length: arg1 == lastresult("encoding.Codec.Marshal", 0) && called("(http.Header).Set") && lastarg("(http.Header).Set", 1) == "Content-Length"
 //@   ensures[C02,C14] failure_goes_to_the_error_renderer_once: called("grpc.MethodDesc.Handler") && lastresult("grpc.MethodDesc.Handler", 1) != nil ==> calls("var:errHandler") == 1 && !called("http.ResponseWriter.Write") && !called(writeError)
 //@   ensures[C02] success_writes_the_response_once: called("grpc.MethodDesc.Handler") && lastresult("grpc.MethodDesc.Handler", 1) == nil ==> !called("var:errHandler") && ((lastresult("encoding.Codec.Marshal", 1) != nil ==> calls(writeError) == 1 && lastarg(writeError, 1) == 500 && !called("http.ResponseWriter.Write")) && (lastresult("encoding.Codec.Marshal", 1) == nil ==> calls("http.ResponseWriter.Write") == 1 && !called(writeError) && lastarg("http.ResponseWriter.Write", 1) == lastresult("encoding.Codec.Marshal", 0)))
 //@   assert_call[C02,C14] var:errHandler : with_request_context_and_nonzero_code: arg0 == req_ctx(r) && arg2 == w && status_code(arg1) != 0
@@ -321,6 +342,8 @@ package httpgrpc
 //@   assert_call[C11,C03,C09] contextFromHeaders : from_the_request_headers: arg1 == r.Header
 //@   assert_call[C13,C10,C04] contextFromHeaders : onto_the_request_context_with_the_peer_attached: (lastresult(peerFromRequest) != nil ==> arg0 == lastresult("peer.NewContext")) && (lastresult(peerFromRequest) == nil ==> arg0 == req_ctx(r))
 //@   assert_call[C16,C12] var:streamInt : server_stream_info_and_registered_handler: arg0 == svr && typeis(arg1, "*serverStream") && unbox(arg1, "*serverStream") == str && arg2 == info && arg3 == desc.Handler
+//@   assert_call[C11] var:streamInt : reply_content_type_is_set_before_the_handler_runs: called("(http.Header).Set") && lastarg("(http.Header).Set", 1) == "Content-Type" && lastarg("(http.Header).Set", 2) == contentType
+//@   assert_call[C11] grpc.StreamDesc.Handler : reply_content_type_is_set_before_the_handler_runs: called("(http.Header).Set") && lastarg("(http.Header).Set", 1) == "Content-Type" && lastarg("(http.Header).Set", 2) == contentType
 //@   assert_call[C16,C12] grpc.StreamDesc.Handler : server_and_stream: arg0 == svr && typeis(arg1, "*serverStream") && unbox(arg1, "*serverStream") == str
 //@   assert_call[C11,C01] var:streamInt : stream_is_bound_to_this_exchange: str.r == r && str.w == w && str.codec == lastresult(getStreamingCodec) && str.respStream == desc.ClientStreams && !str.headersSent && !str.writeFailed && str.recvd == 0
 //@   assert_call[C11,C01] grpc.StreamDesc.Handler : stream_is_bound_to_this_exchange: str.r == r && str.w == w && str.codec == lastresult(getStreamingCodec) && str.respStream == desc.ClientStreams && !str.headersSent && !str.writeFailed && str.recvd == 0
@@ -360,6 +383,9 @@ package httpgrpc
 //@   ensures[C04] transport_error_is_translated: called("http.RoundTripper.RoundTrip") && lastresult("http.RoundTripper.RoundTrip", 1) != nil ==> called(statusFromContextError) && result == lastresult(statusFromContextError) && lastarg(statusFromContextError, 0) == lastresult("http.RoundTripper.RoundTrip", 1)
 //@   assert_call[C13] getPeer : peer_reports_the_connection_tls_state: arg0 == ch.BaseURL && arg1 == lastresult("http.RoundTripper.RoundTrip", 0).TLS
 //@   assert_call[C03] setMetadata : from_the_reply_headers: arg0 == lastresult("http.RoundTripper.RoundTrip", 0).Header && arg1 == lastresult("internal.GetCallOptions")
+//@   ensures[C13] peer_options_are_filled_once_the_reply_arrived: called(statFromResponse) && len(lastresult("internal.GetCallOptions").Peer) > 0 ==> calls("(*internal.CallOptions).SetPeer") == 1
+//@   ensures[C03] header_and_trailer_options_are_filled_from_the_reply: called(statFromResponse) && (len(lastresult("internal.GetCallOptions").Headers) > 0 || len(lastresult("internal.GetCallOptions").Trailers) > 0) ==> calls(setMetadata) == 1
+//@   assert_call[C13] (*internal.CallOptions).SetPeer : the_peer_of_this_reply: arg0 == lastresult("internal.GetCallOptions") && arg1 == lastresult(getPeer)
 //@   assert_call[C02,C14] statFromResponse : of_the_reply: arg0 == lastresult("http.RoundTripper.RoundTrip", 0)
 //@   ensures[C02,C14] non_ok_status_is_returned: called(statFromResponse) && status_code(lastresult(statFromResponse)) != 0 ==> result != nil
 //@   ensures[C02] success_needs_ok_status_and_decoded_body: result == nil ==> called(statFromResponse) && status_code(lastresult(statFromResponse)) == 0 && called("encoding.Codec.Unmarshal") && lastresult("encoding.Codec.Unmarshal") == nil
@@ -428,6 +454,7 @@ package httpgrpc
 //@   ensures[C01] at_most_one_message_decoded_per_receive: calls("encoding.Codec.Unmarshal") <= 1
 //@   ensures[C08,C01] success_delivered_a_message: result == nil ==> calls("encoding.Codec.Unmarshal") == 1 && lastresult("encoding.Codec.Unmarshal") == nil
 //@   ensures[C08,C02] single_response_success_saw_a_clean_end: result == nil && !cs.respStream ==> calls("(*clientStream).readErrorIfDone") == 2 && lastresult("(*clientStream).readErrorIfDone", 0) && lastresult("(*clientStream).readErrorIfDone", 1) == io.EOF
+//@   ensures[C05,C08] an_extra_response_ends_the_stream_and_releases_the_reader: called("status.Error") && called("encoding.Codec.Unmarshal") && lastresult("encoding.Codec.Unmarshal") == nil ==> cs.done && calls("context.CancelFunc") == 1 && result == cs.rErr && result != nil
 //@   ensures[C08,C02] undecodable_message_is_internal: called("encoding.Codec.Unmarshal") && lastresult("encoding.Codec.Unmarshal") != nil ==> is_status_err(result) && err_status_code(result) == 13
 //@   modifies cs.rErr, cs.done, external
 
@@ -486,6 +513,8 @@ package httpgrpc
 //
 //@ func NewServer
 //@   ensures[C12] result != nil && fresh(result)
+//@   loop loop#1 invariant[C12] root_base_path_and_an_empty_registry_until_an_option_says_otherwise: rangeindex == -1 ==> s.basePath == "/" && s.handlers != nil
+//@   ensures[C12] defaults_without_options: len(opts) == 0 ==> result.basePath == "/" && result.handlers != nil
 //@   loop loop#1 invariant[C12,C16] every_option_so_far_applied_once: calls("httpgrpc.ServerOption.apply") == rangeindex + 1
 //@   assert_call[C12,C16] httpgrpc.ServerOption.apply : option_in_order_on_the_new_server: arg0 == opts[rangeindex] && arg1 == &s
 //@   ensures[C12,C16] all_options_applied: calls("httpgrpc.ServerOption.apply") == len(opts)
@@ -529,3 +558,17 @@ package httpgrpc
 //@ func (*clientStream).Header
 //@   ensures[C03] reports_the_stored_headers_after_waiting: calls("(*sync.WaitGroup).Wait") == 1
 //@   assert_call[C03,C05] (*sync.WaitGroup).Wait : on_the_streams_ready_group: arg0 == &cs.ready
+
+// ---- server options: each constructor's closure stores exactly its argument ----
+//@ closure WithBasePath.iface#1
+//@   ensures[C12] s.basePath == path
+//@   modifies s.basePath
+//@ closure WithServerUnaryInterceptor.iface#1
+//@   ensures[C16] s.unaryInt == interceptor
+//@   modifies s.unaryInt
+//@ closure WithServerStreamInterceptor.iface#1
+//@   ensures[C16] s.streamInt == interceptor
+//@   modifies s.streamInt
+//@ closure ErrorRenderer.return
+//@   ensures[C14] h.errFunc == errFunc
+//@   modifies h.errFunc
